@@ -9,6 +9,7 @@ From Coq Require Import String Ascii.
 From Coq Require Import List ZArith Bool.
 From Verif Require Import C07.Model C07.Spec C07.Proofs C07.SessionProofs C07.Findings C07.Consumer.
 From Verif Require Import C07.Held C07.HeldProofs C07.Format C07.FormatProofs.
+From Verif Require Import C07.Level C07.LevelProofs.
 Import ListNotations.
 Open Scope Z_scope.
 
@@ -779,3 +780,90 @@ Proof.
   destruct dump_v_refuted as [W1 [_ [_ [W2 _]]]].
   split; [exact W1|]. split; [exact W2|]. vm_compute. repeat split; reflexivity.
 Qed.
+
+(* ------------------------------------------------------------------ the log level *)
+
+(* The level of the process logger is configuration (LOG_LEVEL; trace is
+   legal).  On the encoding path (getSPOEReqActions / getSPOERespActions: fold,
+   one trace line, encode) it is a field with NO effect: at every level and for
+   every sequence the variables handed to the proxy are those of the fold's
+   result, so everything C07_encoding says of them holds at every level. *)
+Theorem C07_log_level_has_no_effect : forall lv,
+  (forall l, spoe_req_at LogReadsOnly lv l = spoe_req l) /\
+  (forall l, spoe_resp_at LogReadsOnly lv l = spoe_resp l) /\
+  (forall l, Forall (fun a => hdrs_wf (req_hdrs a)) l ->
+     decode_req (spoe_req_at LogReadsOnly lv l) = Some (erase_rm (fold_req l))) /\
+  (forall l, Forall (fun a => hdrs_wf (resp_edits a)) l ->
+     decode_resp (spoe_resp_at LogReadsOnly lv l) = Some (fold_resp l)) /\
+  (forall k, run_req_lv (lv, k) = run_req k) /\
+  (forall k, run_resp_lv (lv, k) = run_resp k).
+Proof.
+  intro lv. destruct C07_encoding as [Eq [Ep _]].
+  split; [exact (spoe_req_at_head lv)|]. split; [exact (spoe_resp_at_head lv)|].
+  split; [intros l H; rewrite spoe_req_at_head; exact (Eq l H)|].
+  split; [intros l H; rewrite spoe_resp_at_head; exact (Ep l H)|].
+  split; [exact (run_req_lv_is_run_req lv)|exact (run_resp_lv_is_run_resp lv)].
+Qed.
+Print Assumptions C07_log_level_has_no_effect.
+
+(* variant (seed C07-12): rendering the trace line masks the credential headers
+   in the prioritized action's own map.  Below trace the variant IS the code
+   (why a harness run at one level - disabled, error - cannot see it) ... *)
+Theorem C07_log_mask_variant_same_below_trace : forall lv,
+  trace_enabled lv = false ->
+  (forall l, spoe_req_at LogMasksInPlace lv l = spoe_req_at LogReadsOnly lv l) /\
+  (forall l, spoe_resp_at LogMasksInPlace lv l = spoe_resp_at LogReadsOnly lv l).
+Proof.
+  intros lv H. split; intro l.
+  - apply variant_same_below_trace_req; exact H.
+  - apply variant_same_below_trace_resp; exact H.
+Qed.
+Print Assumptions C07_log_mask_variant_same_below_trace.
+
+(* ... at EVERY level it is the code on every sequence none of whose actions
+   names a header of the credential family (decidable cred_freeb; why pools
+   without those names cannot see it at trace level either) ... *)
+Theorem C07_log_mask_variant_same_without_credentials : forall lv,
+  (forall l, forallb (fun a => cred_freeb (req_hdrs a)) l = true ->
+     spoe_req_at LogMasksInPlace lv l = spoe_req_at LogReadsOnly lv l) /\
+  (forall l, forallb (fun a => cred_freeb (resp_edits a)) l = true ->
+     spoe_resp_at LogMasksInPlace lv l = spoe_resp_at LogReadsOnly lv l).
+Proof.
+  intro lv. split; intros l H.
+  - apply variant_same_without_credentials_req. apply Forall_forall. intros a Ha.
+    apply cred_freeb_spec. rewrite forallb_forall in H. exact (H a Ha).
+  - apply variant_same_without_credentials_resp. apply Forall_forall. intros a Ha.
+    apply cred_freeb_spec. rewrite forallb_forall in H. exact (H a Ha).
+Qed.
+Print Assumptions C07_log_mask_variant_same_without_credentials.
+
+(* ... and at trace level it violates the first two conjuncts of C07_encoding
+   (hence C07_log_level_has_no_effect) on well-formed inputs: merged request
+   edits, the first early response, merged response edits. *)
+Theorem C07_log_mask_variant_refuted :
+  ~ (forall lv l, Forall (fun a => hdrs_wf (req_hdrs a)) l ->
+       decode_req (spoe_req_at LogMasksInPlace lv l) = Some (erase_rm (fold_req l))) /\
+  ~ (forall lv l, Forall (fun a => hdrs_wf (resp_edits a)) l ->
+       decode_resp (spoe_resp_at LogMasksInPlace lv l) = Some (fold_resp l)).
+Proof.
+  destruct w_wf as [W1 [_ W3]]. destruct variant_refuted as [N1 [_ N3]].
+  split; intro H; [exact (N1 (H LvTrace _ W1))|exact (N3 (H LvTrace _ W3))].
+Qed.
+Print Assumptions C07_log_mask_variant_refuted.
+
+Example C07_log_level_example :
+  (* HEAD: the witnesses are encoded the same at trace and at error level *)
+  spoe_req_at LogReadsOnly LvTrace w_req = spoe_req_at LogReadsOnly LvError w_req /\
+  decode_req (spoe_req_at LogReadsOnly LvTrace w_req)
+    = Some (RModHeaders (w_auth ++ w_other)) /\
+  (* the variant at trace level: Authorization:*****, at error level: the code *)
+  decode_req (spoe_req_at LogMasksInPlace LvTrace w_req)
+    = Some (RModHeaders ((fst (hd ([], []) w_auth), mask) :: w_other)) /\
+  spoe_req_at LogMasksInPlace LvError w_req = spoe_req w_req /\
+  (* the first early response is not sent unchanged *)
+  decode_req (spoe_req_at LogMasksInPlace LvTrace w_early)
+    = Some (REarly 200 [99] [(fst (hd ([], []) w_cookie), mask)]) /\
+  fold_req w_early = REarly 200 [99] w_cookie /\
+  (* names are compared case-insensitively; other names are untouched *)
+  is_cred (fst (hd ([], []) w_Cookie)) = true /\ cred_freeb w_other = true /\ cred_freeb w_auth = false.
+Proof. vm_compute. repeat split; reflexivity. Qed.
